@@ -4,6 +4,7 @@ import (
 	"encoding/json"
 	"fmt"
 	"reflect"
+	"time"
 
 	"github.com/vedadiyan/genql"
 )
@@ -49,6 +50,14 @@ func plainProblem(v any, path string, onPath map[uintptr]bool, depth int) string
 }
 
 func init() {
+	// slowf: identity after a short sleep, so that an ASYNC slot read before the wait is still empty
+	genql.RegisterFunction("slowf", func(_ *genql.Query, _ genql.Map, _ *genql.FunctionOptions, args []any) (any, error) {
+		if len(args) != 1 {
+			return nil, fmt.Errorf("slowf takes one argument")
+		}
+		time.Sleep(3 * time.Millisecond)
+		return args[0], nil
+	})
 	genql.RegisterFunction("idf", func(_ *genql.Query, _ genql.Map, _ *genql.FunctionOptions, args []any) (any, error) {
 		if len(args) != 1 {
 			return nil, fmt.Errorf("idf takes one argument")
@@ -100,6 +109,10 @@ func c12Forms(r *Rand, t table) map[string]*Expr {
 		"async-str":  {K: "call", Qual: "ASYNC", Name: "idf", Items: []*Expr{Str("s")}},
 		"call":       {K: "call", Name: "idf", Items: []*Expr{Bin("*", Col("n1"), Num(2))}},
 		"call-col":   {K: "call", Name: "idf", Items: []*Expr{Col("o")}},
+		// a row-scoped subquery over dual whose own select item is an ASYNC call: its slot is resolved by the
+		// subquery's post-processors, which the enclosing query must adopt
+		"subquery-async": {K: "sub", Q: &Stmt{From: &From{K: "dual"}, Items: []Item{{E: &Expr{K: "call", Qual: "ASYNC", Name: "slowf", Items: []*Expr{Col("n1")}}, Alias: "e"}}}},
+		"async-slow":     {K: "call", Qual: "ASYNC", Name: "slowf", Items: []*Expr{Col("n2")}},
 	}
 }
 
@@ -131,7 +144,25 @@ func genC12(r *Rand, tier string) []Case {
 			}
 			m["items"] = items
 		}
-		doc := map[string]any{"t": t.rows, "u": genTable(r, 3).rows}
+		doc := map[string]any{"t": t.rows, "u": genTable(r, 3).rows, "nn": []any{t.rows, []any{}, t.rows[:1]}}
+		// a join with many distinct keys under LIMIT: the window must be the same rows on every run
+		{
+			big := make([]any, 40)
+			bigr := make([]any, 40)
+			for i := range big {
+				big[i] = map[string]any{"k": float64(i), "v": float64(i % 7)}
+				bigr[i] = map[string]any{"m": float64(39 - i), "w": float64(i % 3)}
+			}
+			jq := &Stmt{From: &From{K: "join", JT: "inner", Strat: Pick(r, []string{"auto", "hash"}),
+				L: &From{K: "table", Path: []string{"big"}, Alias: "x"}, R: &From{K: "table", Path: []string{"bigr"}, Alias: "y"},
+				On: Cmp("=", Col("x", "k"), Col("y", "m"))}, Items: []Item{{Star: true}}, Limit: intp(5), Offset: intp(r.Intn(3))}
+			c := mkCase(map[string]any{"big": big, "bigr": bigr}, jq, []string{"form:join", "pos:join-limit-40-keys"}, true)
+			in := c.Input.(engIn)
+			in.Repeat = 6
+			c.Input = in
+			c.Key = "join-limit|" + fmt.Sprint(round)
+			out = append(out, c)
+		}
 		forms := c12Forms(r, t)
 		base := func() *Stmt { return &Stmt{From: &From{K: "table", Path: []string{"t"}}} }
 		add := func(q *Stmt, form, pos string, repeat int) {
@@ -143,12 +174,15 @@ func genC12(r *Rand, tier string) []Case {
 			out = append(out, c)
 		}
 		for name, f := range forms {
-			async := name == "async-call" || name == "async-arith" || name == "async-str"
+			async := name == "async-call" || name == "async-arith" || name == "async-str" || name == "async-slow" || name == "subquery-async"
 			// 1. select-list item
 			q := base()
 			q.Items = []Item{{E: Col("id")}, {E: f, Alias: "v"}}
 			add(q, name, "select-item", 2)
 			if async {
+				// ... also over the inner dimensions of a multi-dimensional FROM
+				nq := &Stmt{From: &From{K: "table", Path: []string{"nn"}}, Items: []Item{{E: Col("id")}, {E: f, Alias: "v"}}}
+				add(nq, name, "select-item-nested-from", 2)
 				continue // the property speaks of ASYNC calls used directly as select-list items
 			}
 			// 2. select item together with *
